@@ -306,6 +306,8 @@ def simp1(t):
             return OR(*xs) if f == S('any') else AND(*xs)
         if f in (S('list'), S('tuple')) and len(args) == 1 and is_literal_seq(args[0]):
             return (f[1], args[0][1])
+        if f in (S('frozenset'), S('set')) and len(args) == 1 and is_literal_seq(args[0]):
+            return ('tuple', args[0][1])          # used for membership tests only
         if f == S('bool') and len(args) == 1:
             c = as_cond(args[0])
             if c[0] == 'const':
